@@ -263,7 +263,7 @@ def insertOnly (k : Nat) : Bool :=
   k < base || k == kBackspace || k == kDelete || k == kCtrlK || k == kCtrlU
 
 def known1 (k : Nat) : Bool :=
-  k < base || (base ≤ k && k ≤ base + 12) || k == kCtrlAt
+  k < base || (base ≤ k && k ≤ base + 14)     -- (c-x alone: the `_ignore` binding of basic.py)
 
 def isDigit (k : Nat) : Bool := 48 ≤ k && k ≤ 57
 
